@@ -365,6 +365,12 @@ def path_subpath_start(prog, chk):
     sx = min(x for x, _t in sw)
     # every (letter, arm) edge of the dispatches on the command letter (one `match`, or several on the same letter)
     arms = [(v, tgt) for _x, st_ in sw for v, tgt in st_["vals"]]
+    # a dispatch on the case-folded letter (`match cmd.to_ascii_uppercase()`, with `relative = cmd.is_ascii_lowercase()`)
+    # has one arm for both spellings
+    for x_, st_ in sw:
+        o_ = R.origin(b, st_["op"], carriers={})
+        if o_[0] == "call" and "fn" in o_[2] and Callee(o_[2]["fn"]).path.split("::")[-1] in ("to_ascii_uppercase", "to_ascii_lowercase"):
+            arms += [(ord(chr(v).swapcase()), tgt) for v, tgt in st_["vals"] if 0 < v < 128 and chr(v).isalpha()]
 
     def resets(body):
         """does every path through this PathParser method assign self.start_pos?"""
